@@ -23,6 +23,7 @@ import (
 	"net"
 	"net/netip"
 	"reflect"
+	"regexp"
 	"sort"
 	"strings"
 	"testing"
@@ -118,7 +119,7 @@ const (
 	v12RU, v12RH                 = "2001:db8:ffff:8::/61", "fd00:1:2:3:4:5:6:7/128"
 	v12S1, v12S2, v12S3          = "2001:db8::53", "2001:db8::54", "fe80::53"
 	v12N1, v12N2, v12N3          = "example.com", "lan.example.org", "corp.test"
-	v12U1, v12U2                 = "https://portal.example.com/api", "urn:ietf:params:capport:unrestricted"
+	v12U1, v12U2                 = "https://portal.example.com/api?next=%2Fhome%20page&s=%d", "urn:ietf:params:capport:unrestricted"
 	v12Inf                       = ndp.Infinity
 )
 
@@ -428,6 +429,7 @@ func v12ViaHandle(cfg config.Interface, theirs *ndp.RouterAdvertisement, times i
 		}
 	}
 	before, lines0, hooks0 := v12Samples(mem), bytes.Count(buf.Bytes(), []byte("\n")), hooks
+	off0 := buf.Len()
 	snapshot := verifh.DeepDump(cfg) // the own RA may share memory with the configuration's plugins
 	dst, err := a.handle(theirs, host)
 	if err != nil {
@@ -480,6 +482,9 @@ func v12ViaHandle(cfg config.Interface, theirs *ndp.RouterAdvertisement, times i
 		for n := int(d); n > 0; n-- {
 			o.reported = append(o.reported, p)
 		}
+	}
+	if !v12LogOK(buf.String()[off0:], o.reported) {
+		o.labelsOK = false
 	}
 	if ours == nil {
 		ours, _ = a.buildRA(cfg)
@@ -753,6 +758,7 @@ func (h *v12Harness) deliver(theirs *ndp.RouterAdvertisement) (v12Obs, *ndp.Rout
 	// its own line when the interface is not forwarding (C04), which is not one of them
 	lines := func() int { return bytes.Count(h.buf.Bytes(), []byte("inconsisten")) }
 	before, lines0, hooks0 := v12Samples(h.mem), lines(), h.hooks
+	off0 := h.buf.Len()
 	h.hookOurs = nil
 	snapshot := verifh.DeepDump(h.cfg) // the own RA may share memory with the configuration's plugins
 	dst, err := h.a.handle(theirs, netip.MustParseAddr("fe80::2"))
@@ -807,7 +813,46 @@ func (h *v12Harness) deliver(theirs *ndp.RouterAdvertisement) (v12Obs, *ndp.Rout
 			o.reported = append(o.reported, p)
 		}
 	}
+	if !v12LogOK(h.buf.String()[off0:], o.reported) {
+		o.labelsOK = false
+	}
 	return o, h.hookOurs, nil
+}
+
+// v12LogOK: "each inconsistency is logged ... under its field/details labels" -- every counted problem has its own log
+// line `inconsistency N: "field": (details) message` carrying the field and the details verbatim (whatever characters
+// they contain), and no line is a formatting accident.
+var v12LineRE = regexp.MustCompile(`inconsistency [0-9]+: (.*)$`)
+
+func v12LogOK(text string, reported []v12Problem) bool {
+	var lines []string
+	for _, l := range strings.Split(text, "\n") {
+		if strings.Contains(l, "%!") {
+			return false
+		}
+		if m := v12LineRE.FindStringSubmatch(l); m != nil {
+			lines = append(lines, m[1])
+		}
+	}
+	if len(lines) != len(reported) {
+		return false
+	}
+	used := make([]bool, len(lines))
+next:
+	for _, p := range reported {
+		want := fmt.Sprintf("%q: ", p.Field)
+		if p.Details != "" {
+			want += "(" + p.Details + ") "
+		}
+		for i, rest := range lines {
+			if !used[i] && strings.HasPrefix(rest, want) {
+				used[i] = true
+				continue next
+			}
+		}
+		return false
+	}
+	return true
 }
 
 var v12DynAddrs = []string{"2001:db8:1::1/64", "2001:db8:2::1/64", "2001:db8:3::1/64", "fd00:4::1/64", "fd00:5::53/64", "2001:db8:1::2/64", "fe80::1/64"}
